@@ -40,6 +40,7 @@
 import DateutilVerif.Proofs.RRuleSetSpec
 import DateutilVerif.Proofs.CacheGlobal
 import DateutilVerif.Proofs.RSetHistoryInv
+import DateutilVerif.Generated.RRBaseCache
 
 namespace C10
 open RSet
@@ -90,6 +91,23 @@ theorem history_inv (cacheOn : Bool) (ops : List Op) (hsorted : ∀ op ∈ ops, 
 theorem history_inv_any (cacheOn : Bool) (ops : List Op) (hsorted : ∀ op ∈ ops, opSorted op) (hfit : AllFit {} ops) :
     Agree {} ops (runOps (newState cacheOn) ops) (specOps {} ops) :=
   history_good_any ops (newState cacheOn) {} (good_init cacheOn) hsorted hfit
+
+/-- **gen_invalidate_eq_model.** `rrulebase._invalidate_cache` as translated from the source (`Gen.invalidateProgram`,
+    meaning `CachePy.runIL`) on a cached object, whatever its state: a fresh cache list, `_cache_complete` False, a fresh
+    (`_restartable`) generator over the members as they are now, lock released, `_len` None, generation counter + 1 — exactly
+    the fresh machine `Cache.initShared` that `RSet.invalidate` installs after every mutator (the previous generation is
+    pushed on `old`, whose length is the generation counter). -/
+theorem gen_invalidate_eq_model (o : CachePy.Obj) (src : List Int) (e : Option Py.PyErr) (hc : o.cached = true) :
+    CachePy.runIL src e Gen.invalidateProgram o =
+      some { cached := true, sh := Cache.initShared src e, generation := o.generation + 1 } := by
+  simp [Gen.invalidateProgram, CachePy.runIL, CachePy.runI, hc, Cache.initShared]
+
+/-- … and on an uncached object only the generation counter and `_len` change -/
+theorem gen_invalidate_uncached (o : CachePy.Obj) (src : List Int) (e : Option Py.PyErr) (hc : o.cached = false) :
+    CachePy.runIL src e Gen.invalidateProgram o = some { o with sh := { o.sh with len := none }, generation := o.generation + 1 } := by
+  simp [Gen.invalidateProgram, CachePy.runIL, CachePy.runI, hc]
+
+example : (invalidate (newState true) { rrules := [[1, 2]] }).cur.sh = Cache.initShared (Members.src { rrules := [[1, 2]] }) := rfl
 
 /-- in particular for histories whose iterators are all dropped at once (iterPartial k = `.take k`) -/
 theorem history_inv_dropped (cacheOn : Bool) (ops : List Op) (hsorted : ∀ op ∈ ops, opSorted op)
